@@ -5,7 +5,6 @@ import (
 	"os"
 	"slices"
 	"sort"
-	"strings"
 	"sync"
 
 	"github.com/NethermindEth/juno/db"
@@ -163,7 +162,9 @@ func (d *Database) NewIterator(prefix []byte, withUpperBound bool) (db.Iterator,
 
 	for k := range d.db {
 		// A prefix without an upper bound (all bytes 0xff, or empty) leaves the range open-ended.
-		if strings.HasPrefix(k, pr) && (!withUpperBound || upperBound == nil || k < ub) {
+		// Like Pebble, the prefix is the lower bound of the range; keys are confined to the
+		// prefix only when an upper bound is requested.
+		if k >= pr && (!withUpperBound || upperBound == nil || k < ub) {
 			keys = append(keys, k)
 		}
 	}
